@@ -23,10 +23,17 @@ def EntriesOk (cfg : Cfg) (s : St) : Prop :=
 def MemoOk (cfg : Cfg) (s : St) : Prop :=
   ∀ m, m ∈ s.memo → ∀ u, cfg.memoKey u = m.1.2 → ∃ b, (u, m.2, b) ∈ s.srv
 
+/-- every parsed index the process remembers for a URL is a body the server served under that URL (under the
+remembered ETag, unless the HEAD answer came from a stale memo while the entry was missing: then it is the body
+that was current at the time of the GET) -/
+def ParsedOk (s : St) : Prop :=
+  ∀ p, p ∈ s.parsed → ∀ b, p.2 = some b → ∃ e, (p.1.1, e, b) ∈ s.srv
+
 structure Inv (cfg : Cfg) (s : St) : Prop where
   sep : EtagSep cfg s.srv
   entries : EntriesOk cfg s
   memo : MemoOk cfg s
+  parsed : ParsedOk s
 
 def MemoKeyInj (cfg : Cfg) : Prop := ∀ u u2, cfg.memoKey u = cfg.memoKey u2 → u = u2
 
@@ -85,7 +92,7 @@ theorem memoGet_mem {s : St} {c : CacheId} {k : MemoKey} {e : Etag} (h : s.memoG
 
 theorem head_spec {cfg : Cfg} (hk : MemoKeyInj cfg) {s : St} (hinv : Inv cfg s) {c : CacheId} {m : Bool} {u : Url}
     {e : Etag} {s1 : St} (h : head cfg s c m u = some (e, s1)) :
-    (∃ b, (u, e, b) ∈ s.srv) ∧ s1.srv = s.srv ∧ s1.files = s.files ∧ Inv cfg s1 := by
+    (∃ b, (u, e, b) ∈ s.srv) ∧ s1.srv = s.srv ∧ s1.files = s.files ∧ s1.parsed = s.parsed ∧ Inv cfg s1 := by
   unfold head at h
   split at h
   · -- memo hit
@@ -98,7 +105,7 @@ theorem head_spec {cfg : Cfg} (hk : MemoKeyInj cfg) {s : St} (hinv : Inv cfg s) 
     | true =>
       simp only [↓reduceIte] at hm
       have := hinv.memo _ (memoGet_mem hm) u rfl
-      exact ⟨this, rfl, rfl, hinv⟩
+      exact ⟨this, rfl, rfl, rfl, hinv⟩
   · -- HEAD request
     split at h
     · cases h
@@ -107,12 +114,13 @@ theorem head_spec {cfg : Cfg} (hk : MemoKeyInj cfg) {s : St} (hinv : Inv cfg s) 
       obtain ⟨h1, h2⟩ := h
       subst h1
       have hmem := cur_mem hc
-      refine ⟨⟨b0, hmem⟩, ?_, ?_, ?_⟩
+      refine ⟨⟨b0, hmem⟩, ?_, ?_, ?_, ?_⟩
+      · subst h2; split <;> rfl
       · subst h2; split <;> rfl
       · subst h2; split <;> rfl
       · subst h2
         split
-        · refine ⟨hinv.sep, hinv.entries, ?_⟩
+        · refine ⟨hinv.sep, hinv.entries, ?_, hinv.parsed⟩
           intro mm hmm u2 hu2
           simp only [List.mem_append, List.mem_singleton] at hmm
           rcases hmm with hmm | hmm
@@ -137,7 +145,7 @@ theorem head_nomemo (cfg : Cfg) (s : St) (c : CacheId) (u : Url) :
 
 theorem advertise_spec {cfg : Cfg} {s : St} (hinv : Inv cfg s) {u : Url} {e : Etag} {b : Body}
     (hsrv : (u, e, b) ∈ s.srv) {s2 : St} {r : Res} (h : advertise s (cfg.dirOf u) e b true = (s2, r)) :
-    r = some (b, true) ∧ s2.srv = s.srv ∧ s2.memo = s.memo ∧ Inv cfg s2 := by
+    r = some (b, true) ∧ s2.srv = s.srv ∧ s2.memo = s.memo ∧ s2.parsed = s.parsed ∧ Inv cfg s2 := by
   unfold advertise at h
   split at h
   · rename_i f hf
@@ -147,12 +155,12 @@ theorem advertise_spec {cfg : Cfg} {s : St} (hinv : Inv cfg s) {u : Url} {e : Et
     obtain ⟨hm, hd, he⟩ := entry_mem hf
     obtain ⟨hc, u2, hu2, hs2⟩ := hinv.entries f hm e he
     have : f.body = b := hinv.sep u2 u e f.body b hs2 hsrv (by rw [hu2, hd])
-    refine ⟨?_, rfl, rfl, hinv⟩
+    refine ⟨?_, rfl, rfl, rfl, hinv⟩
     rw [← h2, this, hc]
   · simp only [Prod.mk.injEq] at h
     obtain ⟨h1, h2⟩ := h
     subst h1
-    refine ⟨h2.symm, rfl, rfl, hinv.sep, ?_, hinv.memo⟩
+    refine ⟨h2.symm, rfl, rfl, rfl, hinv.sep, ?_, hinv.memo, hinv.parsed⟩
     intro f hf e2 he2
     simp only [List.mem_append, List.mem_singleton] at hf
     rcases hf with hf | hf
@@ -167,18 +175,19 @@ url (or an error) -/
 theorem fetch_spec {cfg : Cfg} (hk : MemoKeyInj cfg) (hce : cfg.copyErrKept = true) {s : St} (hinv : Inv cfg s)
     (c : CacheId) (m : Bool) (u : Url) (cut : Bool) :
     Inv cfg (fetch cfg s c m u cut).1 ∧ (fetch cfg s c m u cut).1.srv = s.srv ∧
+    (fetch cfg s c m u cut).1.parsed = s.parsed ∧
     ∀ b compl, (fetch cfg s c m u cut).2 = some (b, compl) → compl = true ∧ ∃ e, (u, e, b) ∈ s.srv := by
   unfold fetch
   cases hh : head cfg s c m u with
-  | none => exact ⟨hinv, rfl, fun _ _ h => by cases h⟩
+  | none => exact ⟨hinv, rfl, rfl, fun _ _ h => by cases h⟩
   | some es =>
     obtain ⟨e, s1⟩ := es
-    obtain ⟨⟨b0, hb0⟩, hsrv1, hfiles1, hinv1⟩ := head_spec hk hinv hh
+    obtain ⟨⟨b0, hb0⟩, hsrv1, hfiles1, hparsed1, hinv1⟩ := head_spec hk hinv hh
     dsimp only
     cases hen : s1.entry (cfg.dirOf u) e with
     | some f =>
       dsimp only
-      refine ⟨hinv1, hsrv1, ?_⟩
+      refine ⟨hinv1, hsrv1, hparsed1, ?_⟩
       intro b compl hr
       simp only [Option.some.injEq, Prod.mk.injEq] at hr
       obtain ⟨hm, hd, he⟩ := entry_mem hen
@@ -192,7 +201,7 @@ theorem fetch_spec {cfg : Cfg} (hk : MemoKeyInj cfg) (hce : cfg.copyErrKept = tr
     | none =>
       dsimp only
       cases hc : s1.cur u with
-      | none => exact ⟨hinv1, hsrv1, fun _ _ h => by cases h⟩
+      | none => exact ⟨hinv1, hsrv1, hparsed1, fun _ _ h => by cases h⟩
       | some eb =>
         obtain ⟨e2, b2⟩ := eb
         dsimp only
@@ -200,7 +209,7 @@ theorem fetch_spec {cfg : Cfg} (hk : MemoKeyInj cfg) (hce : cfg.copyErrKept = tr
         cases cut with
         | true =>
           simp only [↓reduceIte, hce]
-          refine ⟨⟨hinv1.sep, ?_, hinv1.memo⟩, hsrv1, fun _ _ h => by cases h⟩
+          refine ⟨⟨hinv1.sep, ?_, hinv1.memo, hinv1.parsed⟩, hsrv1, hparsed1, fun _ _ h => by cases h⟩
           intro f hf e3 he3
           simp only [List.mem_append, List.mem_singleton] at hf
           rcases hf with hf | hf
@@ -210,8 +219,8 @@ theorem fetch_spec {cfg : Cfg} (hk : MemoKeyInj cfg) (hce : cfg.copyErrKept = tr
           simp only [Bool.false_eq_true, ↓reduceIte]
           cases ha : advertise s1 (cfg.dirOf u) e2 b2 true with
           | mk s2 r =>
-            obtain ⟨hr, hsrv2, -, hinv2⟩ := advertise_spec hinv1 hmem1 ha
-            refine ⟨hinv2, by rw [hsrv2, hsrv1], ?_⟩
+            obtain ⟨hr, hsrv2, -, hparsed2, hinv2⟩ := advertise_spec hinv1 hmem1 ha
+            refine ⟨hinv2, by rw [hsrv2, hsrv1], by rw [hparsed2, hparsed1], ?_⟩
             intro b compl hbc
             dsimp only at hbc
             rw [hr] at hbc
@@ -219,17 +228,125 @@ theorem fetch_spec {cfg : Cfg} (hk : MemoKeyInj cfg) (hce : cfg.copyErrKept = tr
             refine ⟨hbc.2.symm, e2, ?_⟩
             rw [← hbc.1, ← hsrv1]; exact hmem1
 
+/-! ### index requests: the process-wide table of parsed indexes -/
+
+theorem parsedGet_mem {s : St} {u : Url} {e : Etag} {r : Option Body} (h : s.parsedGet u e = some r) :
+    ((u, e), r) ∈ s.parsed := by
+  unfold St.parsedGet at h
+  cases hf : s.parsed.find? (fun p => p.1 = (u, e)) with
+  | none => rw [hf] at h; cases h
+  | some p =>
+    rw [hf] at h
+    have hm := List.mem_of_find?_eq_some hf
+    have hp := List.find?_some hf
+    simp only [decide_eq_true_eq] at hp
+    simp only [Option.map_some, Option.some.injEq] at h
+    obtain ⟨pk, pr⟩ := p
+    simp only at hp h
+    subst hp; subst h
+    exact hm
+
+theorem parseRes_some {r : Res} {b : Body} (h : parseRes r = some b) : r = some (b, true) := by
+  unfold parseRes at h
+  split at h
+  · simp only [Option.some.injEq] at h; subst h; rfl
+  · cases h
+
+/-- an index request through the cache keeps the invariant; its answer is a complete body served under this url,
+or an error -/
+theorem fetchIndex_spec {cfg : Cfg} (hk : MemoKeyInj cfg) (hce : cfg.copyErrKept = true) {s : St} (hinv : Inv cfg s)
+    (c : CacheId) (m : Bool) (u : Url) (cut : Bool) :
+    Inv cfg (fetchIndex cfg s c m u cut).1 ∧ (fetchIndex cfg s c m u cut).1.srv = s.srv ∧
+    ∀ b compl, (fetchIndex cfg s c m u cut).2 = some (b, compl) → compl = true ∧ ∃ e, (u, e, b) ∈ s.srv := by
+  unfold fetchIndex
+  cases hh : head cfg s c m u with
+  | none => exact ⟨hinv, rfl, fun _ _ h => by cases h⟩
+  | some es =>
+    obtain ⟨e, s1⟩ := es
+    obtain ⟨⟨b0, hb0⟩, hsrv1, -, -, hinv1⟩ := head_spec hk hinv hh
+    dsimp only
+    cases hp : s1.parsedGet u e with
+    | some r =>
+      dsimp only
+      refine ⟨hinv1, hsrv1, ?_⟩
+      intro b compl hr
+      cases r with
+      | none => cases hr
+      | some b1 =>
+        simp only [Option.map_some, Option.some.injEq, Prod.mk.injEq] at hr
+        obtain ⟨e2, he2⟩ := hinv1.parsed _ (parsedGet_mem hp) b1 rfl
+        rw [hsrv1] at he2
+        exact ⟨hr.2.symm, e2, by rw [← hr.1]; exact he2⟩
+    | none =>
+      dsimp only
+      obtain ⟨hinv2, hsrv2, hparsed2, hauth⟩ := fetch_spec hk hce hinv1 c m u cut
+      refine ⟨⟨hinv2.sep, hinv2.entries, hinv2.memo, ?_⟩, by rw [← hsrv1]; exact hsrv2, ?_⟩
+      · intro p hpm b1 hb1
+        simp only [List.mem_append, List.mem_singleton] at hpm
+        rcases hpm with hpm | hpm
+        · exact hinv2.parsed p hpm b1 hb1
+        · subst hpm
+          simp only at hb1
+          have hr := parseRes_some hb1
+          obtain ⟨-, e2, he2⟩ := hauth b1 true hr
+          exact ⟨e2, by rw [hsrv2]; exact he2⟩
+      · intro b compl hr
+        cases hpr : parseRes (fetch cfg s1 c m u cut).2 with
+        | none => rw [hpr] at hr; cases hr
+        | some b1 =>
+          rw [hpr] at hr
+          simp only [Option.map_some, Option.some.injEq, Prod.mk.injEq] at hr
+          obtain ⟨-, e2, he2⟩ := hauth b1 true (parseRes_some hpr)
+          rw [hsrv1] at he2
+          exact ⟨hr.2.symm, e2, by rw [← hr.1]; exact he2⟩
+
+theorem fetchIndexDirect_spec {cfg : Cfg} {s : St} (hinv : Inv cfg s) (u : Url) :
+    Inv cfg (fetchIndexDirect s u).1 ∧ (fetchIndexDirect s u).1.srv = s.srv ∧
+    ∀ b compl, (fetchIndexDirect s u).2 = some (b, compl) → compl = true ∧ ∃ e, (u, e, b) ∈ s.srv := by
+  unfold fetchIndexDirect
+  cases hc : s.cur u with
+  | none => exact ⟨hinv, rfl, fun _ _ h => by cases h⟩
+  | some eb =>
+    obtain ⟨e, b0⟩ := eb
+    dsimp only
+    cases hp : s.parsedGet u e with
+    | some r =>
+      dsimp only
+      refine ⟨hinv, rfl, ?_⟩
+      intro b compl hr
+      cases r with
+      | none => cases hr
+      | some b1 =>
+        simp only [Option.map_some, Option.some.injEq, Prod.mk.injEq] at hr
+        obtain ⟨e2, he2⟩ := hinv.parsed _ (parsedGet_mem hp) b1 rfl
+        exact ⟨hr.2.symm, e2, by rw [← hr.1]; exact he2⟩
+    | none =>
+      dsimp only
+      refine ⟨⟨hinv.sep, hinv.entries, hinv.memo, ?_⟩, rfl, ?_⟩
+      · intro p hpm b1 hb1
+        simp only [List.mem_append, List.mem_singleton] at hpm
+        rcases hpm with hpm | hpm
+        · exact hinv.parsed p hpm b1 hb1
+        · subst hpm
+          simp only [Option.some.injEq] at hb1
+          subst hb1
+          exact ⟨e, cur_mem hc⟩
+      · intro b compl hr
+        simp only [Option.some.injEq, Prod.mk.injEq] at hr
+        exact ⟨hr.2.symm, e, by rw [← hr.1]; exact cur_mem hc⟩
+
 theorem inv_empty (cfg : Cfg) : Inv cfg {} where
   sep := fun _ _ _ _ _ h => absurd h List.not_mem_nil
   entries := fun _ h => absurd h List.not_mem_nil
   memo := fun _ h => absurd h List.not_mem_nil
+  parsed := fun _ h => absurd h List.not_mem_nil
 
 theorem step_inv {cfg : Cfg} (hk : MemoKeyInj cfg) (hce : cfg.copyErrKept = true) {s : St} (hinv : Inv cfg s)
     (ev : Ev) (hl : evLegal cfg s ev) : Inv cfg (step cfg s ev) := by
   cases ev with
   | publish u e b =>
     simp only [step]
-    refine ⟨?_, ?_, ?_⟩
+    refine ⟨?_, ?_, ?_, ?_⟩
     · intro u1 u2 e1 b1 b2 h1 h2 hd
       simp only [List.mem_cons, Prod.mk.injEq] at h1 h2
       rcases h1 with h1 | h1 <;> rcases h2 with h2 | h2
@@ -247,9 +364,14 @@ theorem step_inv {cfg : Cfg} (hk : MemoKeyInj cfg) (hce : cfg.copyErrKept = true
     · intro m hm u1 hu1
       obtain ⟨b1, hb1⟩ := hinv.memo m hm u1 hu1
       exact ⟨b1, List.mem_cons_of_mem _ hb1⟩
+    · intro p hp b1 hb1
+      obtain ⟨e1, he1⟩ := hinv.parsed p hp b1 hb1
+      exact ⟨e1, List.mem_cons_of_mem _ he1⟩
   | fetch c m u cut => exact (fetch_spec hk hce hinv c m u cut).1
+  | index c m u cut => exact (fetchIndex_spec hk hce hinv c m u cut).1
+  | indexDirect u => exact (fetchIndexDirect_spec hinv u).1
   | offline u => exact hinv
-  | exit => exact ⟨hinv.sep, hinv.entries, fun _ h => by cases h⟩
+  | exit => exact ⟨hinv.sep, hinv.entries, fun _ h => absurd h List.not_mem_nil, fun _ h => absurd h List.not_mem_nil⟩
 
 theorem run_inv {cfg : Cfg} (hk : MemoKeyInj cfg) (hce : cfg.copyErrKept = true) (evs : List Ev) :
     ∀ s, Inv cfg s → Legal cfg evs s → Inv cfg (run cfg evs s) := by
@@ -290,7 +412,7 @@ theorem fetch_transparent {cfg : Cfg} (hk : MemoKeyInj cfg) {s : St} (hinv : Inv
       · cases hh
   | some es =>
     obtain ⟨e, s1⟩ := es
-    obtain ⟨-, hsrv1, hfiles1, hinv1⟩ := head_spec hk hinv hh
+    obtain ⟨-, hsrv1, hfiles1, -, hinv1⟩ := head_spec hk hinv hh
     -- the ETag `head` answers is the current one, and the memo stays current
     have hcur : (∃ b, s.cur u = some (e, b)) ∧ (m = true → MemoCurrent cfg s1 c) := by
       unfold head at hh
@@ -349,7 +471,7 @@ theorem fetch_transparent {cfg : Cfg} (hk : MemoKeyInj cfg) {s : St} (hinv : Inv
       have h0 : (u, e, b0) ∈ s1.srv := by rw [hsrv1]; exact cur_mem hb0
       cases ha : advertise s1 (cfg.dirOf u) e b0 true with
       | mk s2 r =>
-        obtain ⟨hr, hsrv2, hmemo2, -⟩ := advertise_spec hinv1 h0 ha
+        obtain ⟨hr, hsrv2, hmemo2, -, -⟩ := advertise_spec hinv1 h0 ha
         dsimp only
         refine ⟨hr, ?_, by rw [hsrv2, hsrv1]⟩
         intro hmt mm hmm hcc u2 hu2
@@ -382,6 +504,78 @@ theorem fetchAll_transparent {cfg : Cfg} (hk : MemoKeyInj cfg) (hce : cfg.copyEr
     intro p _
     unfold direct St.cur
     rw [hsrv1]
+
+/-- an index request through the cache is answered exactly like the index request of a build without the disk
+cache at the same moment in the same process (both consult the process-wide table of parsed indexes first) -/
+theorem fetchIndex_transparent {cfg : Cfg} (hk : MemoKeyInj cfg) {s : St} (hinv : Inv cfg s) (c : CacheId) (m : Bool)
+    (u : Url) (hm : m = true → MemoCurrent cfg s c) :
+    (fetchIndex cfg s c m u false).2 = (fetchIndexDirect s u).2 := by
+  unfold fetchIndex fetchIndexDirect
+  cases hh : head cfg s c m u with
+  | none =>
+    dsimp only
+    unfold head at hh
+    split at hh
+    · cases hh
+    · split at hh
+      · rename_i hc
+        first | rfl | (rw [hc])
+      · cases hh
+  | some es =>
+    obtain ⟨e, s1⟩ := es
+    obtain ⟨-, hsrv1, -, hparsed1, hinv1⟩ := head_spec hk hinv hh
+    -- the ETag `head` answers is the current one; the memo of `c` stays current
+    have hcur : (∃ b, s.cur u = some (e, b)) ∧ (m = true → MemoCurrent cfg s1 c) := by
+      unfold head at hh
+      split at hh
+      · rename_i e0 hme
+        simp only [Option.some.injEq, Prod.mk.injEq] at hh
+        obtain ⟨h1, h2⟩ := hh
+        subst h1; subst h2
+        cases m with
+        | false => simp at hme
+        | true =>
+          simp only [↓reduceIte] at hme
+          exact ⟨hm rfl _ (memoGet_mem hme) rfl u rfl, hm⟩
+      · split at hh
+        · cases hh
+        · rename_i e0 b0 hc
+          simp only [Option.some.injEq, Prod.mk.injEq] at hh
+          obtain ⟨h1, h2⟩ := hh
+          subst h1
+          refine ⟨⟨b0, hc⟩, ?_⟩
+          intro hmt
+          subst h2
+          simp only [hmt, ↓reduceIte]
+          intro mm hmm hcc u2 hu2
+          simp only [List.mem_append, List.mem_singleton] at hmm
+          have hcurEq : ∀ (mm : List ((CacheId × MemoKey) × Etag)) v, St.cur { s with memo := mm } v = s.cur v :=
+            fun _ _ => rfl
+          rw [hcurEq]
+          rcases hmm with hmm | hmm
+          · exact hm hmt mm hmm hcc u2 hu2
+          · subst hmm
+            simp only at hu2
+            have := hk _ _ hu2
+            subst this
+            exact ⟨b0, hc⟩
+    obtain ⟨⟨b0, hb0⟩, hmc1⟩ := hcur
+    dsimp only
+    rw [hb0]
+    dsimp only
+    have hpg : s1.parsedGet u e = s.parsedGet u e := by unfold St.parsedGet; rw [hparsed1]
+    rw [hpg]
+    cases hp : s.parsedGet u e with
+    | some r => rfl
+    | none =>
+      dsimp only
+      have ht := (fetch_transparent hk hinv1 c m u hmc1).1
+      have hd : direct s1 u = some (b0, true) := by
+        unfold direct St.cur; rw [hsrv1]
+        have : (s.srv.find? fun t => t.1 = u).map (·.2) = some (e, b0) := hb0
+        rw [this]; rfl
+      rw [ht, hd]
+      rfl
 
 /-! ### a cut connection -/
 
@@ -472,6 +666,8 @@ theorem evLegalB_sound (cfg : Cfg) (s : St) (ev : Ev) (h : evLegalB cfg s ev = t
     simp only [decide_true, hd, Bool.and_self, Bool.not_true, Bool.false_or, decide_eq_true_eq] at this
     exact this
   | fetch c m u cut => trivial
+  | index c m u cut => trivial
+  | indexDirect u => trivial
   | offline u => trivial
   | exit => trivial
 
@@ -516,6 +712,8 @@ theorem urlLegalB_sound (cfg : Cfg) (evs : List Ev) : ∀ s, urlLegalB cfg evs s
       simp only [decide_true, Bool.and_self, Bool.not_true, Bool.false_or, decide_eq_true_eq] at this
       exact this
     | fetch c m u cut => trivial
+    | index c m u cut => trivial
+    | indexDirect u => trivial
     | offline u => trivial
     | exit => trivial
 
@@ -534,6 +732,8 @@ theorem legal_of_urlLegal {cfg : Cfg} (hd : ∀ u u2, cfg.dirOf u = cfg.dirOf u2
       subst this
       exact h.1 b2 hm
     | fetch c m u cut => trivial
+    | index c m u cut => trivial
+    | indexDirect u => trivial
     | offline u => trivial
     | exit => trivial
 
